@@ -1,6 +1,8 @@
 """C11 — address encodings are lossless and classified by their header (E7 header table by constant evaluation, strictness shape, nat codec shape)."""
 import itertools
 
+import common
+
 import facts
 import fieldflow as ff
 import hirq as H
@@ -436,6 +438,33 @@ def check(rep, F, tier, replay=None):
             if seen != {1, 2}:
                 rep.violation("BYRON-attr", "keys|%s" % sorted(seen), "Byron attribute writer emits keys %s, expected {1, 2}" % sorted(seen), {})
             rep.floor("presence states of the Byron attribute map", 4, len(maps))
+    # ADDR-cast: no unaudited lossy cast in address code
+    import e3_arith as e3_
+    rep.rule("ADDR-cast", "no lossy integer cast (narrowing / sign-changing `as`) in the address code (legacy_address, protocol_types/address.rs) outside the audited inventory: a checksum, length or header value read from the wire is compared / used at its full width (a CRC item narrowed to u32 before the comparison accepts `k * 2^32 + crc`)")
+    aud_ = common.load_table("c11_casts.json")["casts"]
+    seen_ = {}
+    tot_ = 0
+    for fid_, fn_ in F.fns.items():
+        if F.is_derived(fid_) or "/tests/" in fn_["file"]:
+            continue
+        if not (fn_["file"].startswith("src/legacy_address/") or fn_["file"].endswith("protocol_types/address.rs")):
+            continue
+        for bb in fn_["bbs"]:
+            if bb["c"]:
+                continue
+            for st in bb["st"]:
+                if st[1] == "=" and st[3][0] == "cast" and st[3][1] == "IntToInt":
+                    tot_ += 1
+                    if e3_.cast_lossy(st[3][3], st[3][4]):
+                        k_ = "%s|%s->%s" % (F.key(fid_.split("::{closure")[0]), st[3][3], st[3][4])
+                        seen_[k_] = seen_.get(k_, 0) + 1
+    rep.inst("ADDR-cast", tot_)
+    for k_, n_ in sorted(seen_.items()):
+        if k_ in aud_ and n_ <= aud_[k_]["count"]:
+            rep.allow("ADDR-cast", n_)
+            continue
+        rep.violation("ADDR-cast", k_, "lossy integer cast %s (%d site(s)) in address code, not in the audited inventory: a value read from the wire is narrowed before it is checked or used, so bytes that are not a valid address can be accepted as one and re-encoded differently" % (k_, n_), {})
+    rep.floor("integer casts inspected in address code", 30, tot_)
     return rep.finish(
         EXPLANATION,
         ["bech32 / base58 / CRC codecs are dependencies or value-level (not decided)", "the strict parsers never panic: C02"],
